@@ -223,7 +223,7 @@ class ZFn:
         name = fn.get("name")
         if name in ("num_rows", "num_cols") and len(t["args"]) == 1 and t["args"][0]["k"] in ("copy", "move"):
             base = t["args"][0]["p"]; tgt = s.ref_target(base["local"]) if not base["proj"] else None
-            root = (tgt["local"] if tgt and not tgt["proj"] else base["local"])
+            root = (tgt["local"] if tgt and (not tgt["proj"] or all(e["k"] == "deref" for e in tgt["proj"])) else base["local"])     # `&*self` is self
             key = ("G", root, name)
             if key in V: return {V[key]}
         return {"Z", "NZ", True, False}
